@@ -30,7 +30,7 @@ RULE = ('snapshots (Hypothesis): simulated valid models (also stopped and contin
         'step but the same number of instants, with a snapshot taken between the runs), 3..6 snapshots each: target '
         'time at a recorded instant (first, last, any) or strictly between two instants, written in any of the 4 time '
         'units; requested variables = None or a random non-empty subset of the variables the powertrain records; all '
-        '9 output units drawn at random. subsets (exhaustive in the thorough tier, every 10th in quick): EVERY '
+        '9 output units drawn at random; print_data on (the default, output discarded) or off - the returned table must be the same. subsets (exhaustive in the thorough tier, every 10th in quick): EVERY '
         'non-empty subset of the 11 variables on a fixed model that records all of them. Oracle: rows = element names '
         'in chain order; columns = exactly the requested variables, labelled with the requested unit; each cell = '
         'the recorded sample converted with the independent SI table at an instant, the linear interpolation of the '
@@ -88,8 +88,11 @@ def check_snapshot_on(b, tr, snap, res, label=''):
     units = snap['units']
     kw = {a: units[a] for a in ARG_KIND}
     try:
-        df = pt.snapshot(target_time=U.cls('Time')(*target), variables=list(variables) if variables else None,
-                         print_data=False, **kw)
+        import contextlib
+        import io
+        with contextlib.redirect_stdout(io.StringIO()):
+            df = pt.snapshot(target_time=U.cls('Time')(*target), variables=list(variables) if variables else None,
+                             print_data=bool(snap.get('print', False)), **kw)
     except Exception as e:  # noqa
         where = 'last-instant' if (not between and k == tr.n - 1) else ('first-instant' if (not between and k == 0) else 'inside')
         res.bad(f'C18/snapshot-raises/{type(e).__name__}/{where}',
@@ -280,7 +283,8 @@ def s_case(draw, max_len=5, max_steps=25):
         vs = None
         if draw(st.integers(0, 3)) > 0:
             vs = draw(st.lists(st.sampled_from(VARS), min_size=1, max_size=6, unique=True))
-        snaps.append({'at': at, 'unit': draw(G.s_unit('Time')), 'variables': vs, 'units': draw(s_units())})
+        snaps.append({'at': at, 'unit': draw(G.s_unit('Time')), 'variables': vs, 'units': draw(s_units()),
+                      'print': draw(st.booleans())})
     # the end points in every time unit (cheap single-variable snapshots): the range check and the interpolation must
     # agree on what 'inside the recorded range' means
     for u in U.UNITS['Time']:
